@@ -116,7 +116,8 @@ class Ctx:
         self._inline_keep = set()
         for b in self.lib_bodies():
             if b.kind in ('Fn', 'AssocFn') and b.is_pub and not b.impl_trait and b.name != 'new' and b.path not in as_value and \
-                    b.path not in owner and len(b.blocks) <= 40 and b.path.startswith(('base::states::', 'base::spaces::')) and \
+                    b.path not in owner and len(b.blocks) <= 40 and \
+                    (b.path.startswith(('base::states::', 'base::spaces::')) or b.j.get('impl_adt') in node_tys) and \
                     not any(b.local_ty(i).startswith('&mut ') for i in range(1, b.arg_count + 1)) and \
                     b.path not in self.local_callees(b):
                 # a small public helper of a state / space type (`normalised_value`, `dot`, `norm`, `center`): its callers are
@@ -140,8 +141,10 @@ class Ctx:
             p = owner.get(b.path)
             if p is not None:
                 pushing = any(pu['body'] is b or pu['body'].path.startswith(b.path + '::{closure') for pu in P.pushes(self, p))
-                if pushing and 'usize' in ret:
-                    continue                                        # returns the index of the node it pushes
+                if pushing and 'usize' in ret and (any(self.reaches_call(b, m) for m in mcs) or
+                                                   self.reaches_call(b, 'base::validity::StateValidityChecker::is_valid')):
+                    continue                                        # an extension step: checks the motion, pushes, returns the index
+                                                                    # (a helper that only appends what its caller checked is inlined)
                 if ret == 'std::vec::Vec<usize>' and not any(self.reaches_call(b, m) for m in mcs):
                     from .rules.c05 import neighbour_summary
                     try:
